@@ -269,6 +269,7 @@ func (e *Engine) shapeSig(st *State) string {
 			shapeOf(v, &sb)
 		}
 	}
+	fmt.Fprintf(&sb, "|go%d", st.goCount)
 	st.sig = sb.String()
 	return st.sig
 }
@@ -280,7 +281,7 @@ func (e *Engine) mergeAtJoin(a, b *State) (*State, bool) {
 		return nil, false
 	}
 	fa, fb := a.top(), b.top()
-	if fa.fn != fb.fn || fa.block != fb.block || fa.ip != fb.ip || len(fa.defers) != len(fb.defers) {
+	if fa.fn != fb.fn || fa.block != fb.block || fa.ip != fb.ip || len(fa.defers) != len(fb.defers) || a.goCount != b.goCount {
 		return jf("position")
 	}
 	k := 0
